@@ -6,10 +6,14 @@ pid = sys.argv[1]
 rnd = sys.argv[2] if len(sys.argv) > 2 else "1"
 wt = f"/tmp/wt-{pid}" if rnd == "1" else f"/tmp/w{rnd}-{pid}"
 src = f"{wt}/mutants"
-tag = "m" if rnd == "1" else {"2": "n", "3": "p"}[rnd]
+tag = "m" if rnd == "1" else {"2": "n", "3": "p", "4": "q"}[rnd]
 out = []
 for k in (1, 2, 3):
     if not os.path.exists(f"{src}/m{k}.diff"):
+        continue
+    demo_text = open(f"{src}/m{k}_demo.py").read()
+    if "._transformations" in demo_text or "import _transformations" in demo_text:
+        print(f"skipping {pid} m{k}: its demonstration needs a private, unexported module (not kept)")
         continue
     sid = f"{pid}-{tag}{k}"
     d = f"/verif/seeded/{sid}"
